@@ -5,10 +5,12 @@
    FULL round trip: for every board with the placement invariant, hash = from-scratch hash, derived state
    from scratch, bounds as stated and passing validation, parse (write b) = b with ALL fields
    (C05_write_parse); every canonical text parses to a board that writes the same bytes (C05_parse_write).
-   The hypotheses hold for every parsed board (C04_parse_consistent, C06) and are kept by make-move under
-   the local move conditions (C04_apply_consistent); the remaining link "legal => those conditions" is open. *)
+   CLOSED in this round: the hypotheses hold of EVERY reachable board (standard, parsed, built, reached by any number
+   of accepted moves), so writing any reachable board and parsing the text back yields that very board, all fields
+   (C05_roundtrip_reachable), and the constructor, the builder, the parser and play produce IDENTICAL boards for the
+   same position (C05_constructors_agree: equal placement, side, rights, marker and clocks => equal records). *)
 From Coq Require Import NArith List Bool.
-From Chess Require Import base.Bits base.Types base.BitBoard model.Board model.Fen spec.Rules proofs.FenFacts proofs.CoreFacts proofs.FenRoundTrip.
+From Chess Require Import base.Bits base.Types base.BitBoard model.Board model.Fen spec.Rules proofs.FenFacts proofs.CoreFacts proofs.FenRoundTrip proofs.BuilderFacts proofs.Reachable proofs.ReachableMore.
 Import ListNotations.
 Local Open Scope N_scope.
 
@@ -55,3 +57,17 @@ Theorem C05_standard_satisfies_hypotheses :
   /\ b_zob standard = FenRoundTrip.scratch_piece_hash standard /\ validate standard = None /\ update_pin_info standard = standard.
 Proof. exact standard_hypotheses. Qed.
 Print Assumptions C05_standard_satisfies_hypotheses.
+
+Theorem C05_roundtrip_reachable : forall b, Reachable b -> b_half b <= 9999 -> b_full b <= 9999 ->
+  parse_fen (write_fen b) = Some b.
+Proof. exact roundtrip_reachable. Qed.
+Print Assumptions C05_roundtrip_reachable.
+
+Theorem C05_constructors_agree : forall a b, Reachable a -> Reachable b -> board_eqb a b = true ->
+  b_half a = b_half b -> b_full a = b_full b -> a = b.
+Proof. exact reachable_determined. Qed.
+Print Assumptions C05_constructors_agree.
+
+Theorem C05_builder_boards_reachable : forall ops b, Forall bop_wf ops -> build (builder_state ops) = inl b -> Reachable b.
+Proof. exact RB_build. Qed.
+Print Assumptions C05_builder_boards_reachable.
